@@ -1174,6 +1174,53 @@ func (x *Exec) rangeStmt(st *State, fr *Frame, s *ast.RangeStmt, k func(*State))
 			k2(e)
 		}
 		x.genericLoop(st, fr, s, s.Body.List, hidden, head, post, k)
+	case *types.Basic:
+		if u.Info()&types.IsInteger == 0 {
+			x.unsupported(s, "range over %s", xt)
+			return
+		}
+		// for i := range n (Go 1.22): i = 0 .. n-1, n evaluated once
+		nT := x.expr(st, fr, s.X)
+		ord := x.loopOrd[s]
+		idxO := types.NewVar(s.Pos(), x.pkg.Types, fmt.Sprintf("idx#%d", ord), types.Typ[types.Int])
+		st.vars[idxO] = tInt(0)
+		hiddenN := func(s0 *State) map[string]Term {
+			m := map[string]Term{"idx": s0.vars[idxO], "iter": s0.vars[idxO]}
+			if id, ok := s.Key.(*ast.Ident); ok && id.Name != "_" && s.Tok == token.DEFINE {
+				m[id.Name] = s0.vars[idxO]
+			}
+			return m
+		}
+		headN := func(s0 *State, enter, exit func(*State)) {
+			i := s0.vars[idxO]
+			t := s0.clone()
+			t.assume(tAnd(tApp("Bool", "<=", tInt(0), i), tApp("Bool", "<", i, nT)))
+			if s.Key != nil {
+				x.store(t, fr, s.Key, i)
+			}
+			enter(t)
+			f := s0.clone()
+			f.assume(tApp("Bool", ">=", i, nT))
+			exit(f)
+		}
+		postN := func(e *State, k2 func(*State)) {
+			e.vars[idxO] = tApp("Int", "+", e.vars[idxO], tInt(1))
+			k2(e)
+		}
+		// the facts the engine derives for the equivalent counting loop
+		if x.dry == 0 {
+			if x.extraInv == nil {
+				x.extraInv = map[ast.Node][]Clause{}
+			}
+			var b strings.Builder
+			printer.Fprint(&b, x.ld.Fset, s.X)
+			for _, t := range []string{"0 <= iter", fmt.Sprintf("0 <= (%s) ==> iter <= (%s)", b.String(), b.String())} {
+				if e, err := ParseCExpr(t); err == nil {
+					x.extraInv[s] = append(x.extraInv[s], Clause{Src: "derived for the counting loop: " + t, Expr: e, Label: "counting"})
+				}
+			}
+		}
+		x.genericLoop(st, fr, s, s.Body.List, hiddenN, headN, postN, k)
 	default:
 		x.unsupported(s, "range over %s", xt)
 	}
